@@ -204,6 +204,8 @@ class OptunaStorageProxyService(api_pb2_grpc.StorageServiceServicer):
             trial_id = self._backend.create_new_trial(study_id, template_trial)
         except KeyError as e:
             context.abort(code=grpc.StatusCode.NOT_FOUND, details=str(e))
+        except ValueError as e:
+            context.abort(code=grpc.StatusCode.INVALID_ARGUMENT, details=str(e))
 
         return api_pb2.CreateNewTrialReply(trial_id=trial_id)
 
